@@ -358,7 +358,8 @@ def run(ctx):
         return ctx.model_check("PinParse", cfg, expect_violation=viol, note=note, workers=4, **kw)
     with ThreadPoolExecutor(max_workers=4) as ex:          # independent TLC runs, 4 workers each
         results = list(ex.map(mc, runs))
-    ctx.cov["model_runs"].sort(key=lambda m: [r[0] for r in runs].index(m["cfg"]))
+    order = [r[0] for r in runs]
+    ctx.cov["model_runs"].sort(key=lambda m: order.index(m["cfg"]) if m["cfg"] in order else -1)      # (runs made before this block first)
     ctx.require_actions(results[-1], ["Classify", "MakeChunks", "Start", "ScanAny", "FinishAny", "Join", "Concat", "Build"])
     # ---------------- (G) ----------------
     ctx.phase("generation")
